@@ -22,7 +22,10 @@ class NativeOutcome:
 
 
 def _ns(contract, bindings):
+    for k, v in NATIVE_HELPERS.items():
+        contract.ns.setdefault(k, v)   # spec functions of the contract module resolve the helpers through their globals
     ns = dict(NATIVE_HELPERS)
+    ns.update(TOLERANT_NS)
     for k, v in contract.ns.items():
         if not k.startswith("__"):
             ns[k] = v
@@ -30,15 +33,61 @@ def _ns(contract, bindings):
     return ns
 
 
+class _Tolerant(ast.NodeTransformer):
+    """a == b  ->  __teq(a, b) (and !=, <=, >= accordingly): used by the CPython cross-check, where the proof is over the
+    reals and the run is in binary floating point"""
+
+    def visit_Compare(self, n):
+        self.generic_visit(n)
+        if len(n.ops) == 1 and isinstance(n.ops[0], (ast.Eq, ast.NotEq, ast.LtE, ast.GtE)):
+            fn = {ast.Eq: "__teq", ast.NotEq: "__tne", ast.LtE: "__tle", ast.GtE: "__tge"}[type(n.ops[0])]
+            return ast.copy_location(ast.Call(func=ast.Name(id=fn, ctx=ast.Load()), args=[n.left, n.comparators[0]], keywords=[]), n)
+        return n
+
+
+def _isnum(x):
+    import numpy as np
+    return isinstance(x, (int, float, np.integer, np.floating)) and not isinstance(x, (bool, np.bool_))
+
+
+def _teq(a, b):
+    if _isnum(a) and _isnum(b):
+        return a == b or abs(a - b) <= 1e-9 * max(abs(a), abs(b)) + 1e-12
+    if isinstance(a, (list, tuple)) and isinstance(b, (list, tuple)) and type(a) is type(b):
+        return len(a) == len(b) and all(_teq(x, y) for x, y in zip(a, b))
+    r = a == b
+    try:
+        return bool(r)
+    except ValueError:   # element-wise comparison of arrays
+        return bool(getattr(r, "all", lambda: r)())
+
+
+TOLERANT_NS = {"__teq": _teq, "__tne": lambda a, b: not _teq(a, b),
+               "__tle": lambda a, b: (a <= b) if not (_isnum(a) and _isnum(b)) else (a <= b or _teq(a, b)),
+               "__tge": lambda a, b: (a >= b) if not (_isnum(a) and _isnum(b)) else (a >= b or _teq(a, b))}
+_TOLERANT_MODE = [False]
+
+
 def _compile(expr):
     node, olds = parse_clause(expr)
+    if _TOLERANT_MODE[0]:
+        node = _Tolerant().visit(node)
     code = compile(ast.fix_missing_locations(ast.Expression(body=node)), "<clause>", "eval")
     oldcodes = [compile(ast.fix_missing_locations(ast.Expression(body=o)), "<old>", "eval") for o in olds]
     return code, oldcodes
 
 
-def run_native(contract, sname, values, fn=None):
-    """evaluate the contract of `contract` on the real function for the inputs in `values`"""
+def run_native(contract, sname, values, fn=None, tolerant=False):
+    """evaluate the contract of `contract` on the real function for the inputs in `values`; tolerant=True compares numbers
+    in the clause text up to float rounding (cross-check mode)"""
+    _TOLERANT_MODE[0] = bool(tolerant)
+    try:
+        return _run_native(contract, sname, values, fn)
+    finally:
+        _TOLERANT_MODE[0] = False
+
+
+def _run_native(contract, sname, values, fn=None):
     out = NativeOutcome()
     builder = dict(contract.scenarios)[sname]
     b = NativeBuilder(values)
@@ -110,6 +159,12 @@ def run_native(contract, sname, values, fn=None):
         out.exit, out.result = "normal", res
     except Exception as e:
         out.exit, out.exc = "raise", e
+    if frame_pre is not None:
+        # before anything renders the result: __repr__/__str__ of repository objects may normalise their fields in place
+        out.checked += 1
+        bad = _frame_changes(frame_pre, frame_allowed)
+        if bad:
+            out.failed.append(("frame", "writes outside modifies: " + ", ".join(bad[:6])))
     if out.exit == "normal":
         for lab, e in contract.ensures_:
             code, olds = compiled[("ensures", lab)]
@@ -142,11 +197,6 @@ def run_native(contract, sname, values, fn=None):
                 ok = False
             if not ok:
                 out.failed.append((lab, f"raised {type(out.exc).__name__}: {out.exc}"))
-    if frame_pre is not None:
-        out.checked += 1
-        bad = _frame_changes(frame_pre, frame_allowed)
-        if bad:
-            out.failed.append(("frame", "writes outside modifies: " + ", ".join(bad[:6])))
     for lab, (excs, when) in raise_when.items():
         out.checked += 1
         if out.exit == "raise":
